@@ -168,4 +168,14 @@ Proof.
   exfalso. exact (gen_no_panic o what Ho Hp).
 Qed.
 
-(* NOT PROVED (see docs/areas/Sched-proofs.md): direct_assign_closest. *)
+(* ---- direct_assign_closest --------------------------------------------------------------------------------------------------------
+   task.schedule looks for a parked worker bottom up: with [anc_n n i] the n-th ancestor of invocation i, every worker
+   it may hand the task to is parked at or below some h = anc_n n i (i one of the task's invocations) that has parked
+   workers below it, and no invocation reached in fewer steps up from any of the task's invocations has a parked worker
+   below it: the nearest level with a hit is taken. *)
+Theorem direct_assign_closest : forall fuel s invs w, In w (schedule_candidates fuel s invs) ->
+  exists n h j, (n < fuel)%nat /\ In h (map (anc_n n) invs) /\ has_idle_sync s h = true /\
+    In w (v_isync (get_inv s j)) /\ In h (chain j) /\
+    forall m h', (m < n)%nat -> In h' (map (anc_n m) invs) -> has_idle_sync s h' = false.
+Proof. exact direct_assign_closest. Qed.
+Print Assumptions direct_assign_closest.
